@@ -52,6 +52,70 @@ class VList:
         return self._items[i]
 
 
+class VQueue:
+    """multiprocessing.SimpleQueue / Queue: a pipe.  put() of a worker is a scheduling point before
+    its effect; a worker killed at that point leaves nothing, the complete message or - third
+    alternative - a message cut in the middle in the pipe.  get() by the poller blocks until a
+    message is there (the scheduler chooses which worker runs meanwhile); get() on a cut message,
+    or on an empty pipe when no worker can ever write again, never returns: reported as Deadlock.
+    The capacity of the pipe is not modelled (a put never blocks)."""
+
+    def __init__(self, world):
+        self._w = world
+        self._items = []
+
+    def put(self, obj, *a, **kw):
+        self._w.worker_point("put", lambda: self._items.append(("ok", obj)),
+                             torn=lambda: self._items.append(("torn", None)))
+
+    put_nowait = put
+
+    def empty(self):
+        return not self._items
+
+    def qsize(self):
+        return len(self._items)
+
+    def get(self, block=True, timeout=None):
+        w = self._w
+        if w.current is not None:
+            raise AssertionError("get() from a worker is not modelled")
+        while not self._items:
+            if not block:
+                import queue
+                raise queue.Empty()
+            run = w.runnable()
+            if timeout is not None:
+                opts = [("step", p) for p in run] + [("timeout", None)]
+            else:
+                opts = [("step", p) for p in run]
+            if not opts:
+                raise Deadlock("get() on an empty queue while no worker is alive: blocks forever")
+            kind, p = w.choose(opts, "qget")
+            if kind == "timeout":
+                import queue
+                w.now += timeout
+                raise queue.Empty()
+            w._step(p)
+        kind, obj = self._items.pop(0)
+        if kind == "torn":
+            raise Deadlock("get() on a message that was cut short when its sender was killed: "
+                           "blocks forever")
+        return obj
+
+    def get_nowait(self):
+        return self.get(block=False)
+
+    def close(self):
+        pass
+
+    def join_thread(self):
+        pass
+
+    def cancel_join_thread(self):
+        pass
+
+
 class VManager:
     def __init__(self, world):
         self._w = world
@@ -67,6 +131,9 @@ class VManager:
         v = VList(self._w)
         self._w.lists.append(v)
         return v
+
+    def Queue(self, *a, **kw):
+        return VQueue(self._w)
 
     def shutdown(self):
         self._w.manager_closed = True
@@ -166,6 +233,7 @@ class World:
         # search): at every query the clock may jump ahead by clock_jump seconds (once)
         self.clock_jump = clock_jump
         self.jumped = False
+        self.queries_after_jump = 0
 
     # -- choices ---------------------------------------------------------------------------
     def choose(self, options, label):
@@ -183,20 +251,23 @@ class World:
         return options[c]
 
     # -- worker side -------------------------------------------------------------------------
-    def worker_point(self, name, effect):
+    def worker_point(self, name, effect, torn=None):
         p = self.current
         if p is None:
             # shared list used by the poller itself (e.g. list(all_paths)): no scheduling point
             effect()
             return
         p.pending = effect
+        p.pending_torn = torn
         p.state = "blocked"
         self.current = None
         self.back.release()
         p.go.acquire()
         self.current = p
         if p.kill_applies is not None:
-            if p.kill_applies:
+            if p.kill_applies == "torn":
+                torn()
+            elif p.kill_applies:
                 effect()
             p.pending = None
             raise _Killed()
@@ -220,6 +291,8 @@ class World:
     # -- poller side -------------------------------------------------------------------------
     def time(self):
         self.clock_queries += 1
+        if self.jumped:
+            self.queries_after_jump += 1
         if self.clock_jump is not None and not self.jumped and self.clock_queries > 1:
             if self.choose([False, True], "clock%d" % self.clock_queries):
                 self.now += self.clock_jump
@@ -268,7 +341,8 @@ class World:
         if victim.state in ("done", "killed", "new"):
             return
         if victim.state == "blocked":
-            applies = self.choose([False, True], "kill%d" % victim.idx)
+            opts = [False, True] + (["torn"] if getattr(victim, "pending_torn", None) else [])
+            applies = self.choose(opts, "kill%d" % victim.idx)
         else:
             applies = False
         victim.kill_applies = applies
@@ -302,9 +376,21 @@ class World:
 
 def install(world, kd):
     """patch module attributes of osaca.semantics.kernel_dg; returns an undo function"""
-    saved = {k: getattr(kd, k) for k in ("Process", "Manager", "cpu_count", "time", "os")}
+    # whichever of these names the module under test imported is replaced (a rewrite of the
+    # search may use a queue instead of a managed list)
+    names = ("Process", "Manager", "SimpleQueue", "Queue", "JoinableQueue", "cpu_count", "time",
+             "os")
+    saved = {k: getattr(kd, k) for k in names if hasattr(kd, k)}
+    for need in ("Process", "cpu_count", "time", "os"):
+        if need not in saved:
+            raise RuntimeError("kernel_dg no longer uses %s: the schedule explorer does not own "
+                               "its concurrency primitives" % need)
     kd.Process = lambda *a, **kw: VProcess(world, *a, **kw)
-    kd.Manager = lambda *a, **kw: VManager(world)
+    if "Manager" in saved:
+        kd.Manager = lambda *a, **kw: VManager(world)
+    for q in ("SimpleQueue", "Queue", "JoinableQueue"):
+        if q in saved:
+            setattr(kd, q, lambda *a, **kw: VQueue(world))
     kd.cpu_count = lambda: world.cpu_count
     kd.time = types.SimpleNamespace(time=world.time, sleep=world.sleep,
                                     perf_counter=world.time, monotonic=world.time)
